@@ -61,6 +61,11 @@ def scopes():
         else: st = [If(Bin("==", I(1), I(1)), [If(B(True), inner, [])], [])]
         out["scope_shadow_" + kind] = prog([Let("x", "int", I(1))] + st + [Println(V("x"))])
         out["scope_shadow_mut_" + kind] = prog([Let("x", "int", I(1), True)] + st + [Set("x", Bin("+", V("x"), I(10))), Println(V("x"))])
+    # the initialiser of a shadowing let sees the *outer* variable (8.2; Coq E_Let): block, loop body, parameter rebinding
+    out["scope_shadow_init_from_outer_block"] = prog([Let("x", "int", I(100)), If(B(True), [Let("x", "int", Bin("+", V("x"), I(5))), Println(V("x"))], []), Println(V("x"))])
+    out["scope_shadow_init_from_outer_loop"] = prog([Let("x", "int", I(7)), For("i", I(0), I(2), [Let("x", "int", Bin("*", V("x"), I(2))), Println(V("x"))]), Println(V("x"))])
+    out["scope_shadow_init_from_outer_param"] = prog([Println(Call("norm", I(-30)))],
+        [Func("norm", [("n", "int")], "int", [If(B(True), [Let("n", "int", Bin("%", Bin("+", V("n"), I(360)), I(360))), Ret(V("n"))], []), Ret(I(0))])])
     # a block that is never executed must not capture the name either
     out["scope_dead_block"] = prog([Let("x", "int", I(1)), If(B(False), [Let("x", "int", I(2)), Println(V("x"))], []), Println(V("x"))])
     out["scope_param_vs_global"] = prog([Println(Call("f", I(5))), Println(V("g"))],
